@@ -39,18 +39,32 @@ class _log_call:
     params = {"self": None, "level": None, "msg": TStr(), "mapping": None}
 
     def requires(c, self, level, msg, mapping):
-        return {"template-fields-are-keys-of-the-record": _X.names_within(_Z.Val.s(msg.t), list(mapping.keys()))}
+        from pyvc.contracts import DictView as _DV
+
+        if not isinstance(mapping, _DV):
+            # side condition of the assumed logging contract: a record keeps its ARGUMENT OBJECT and handlers may format it later, so what the
+            # record "carries" are the values only if the arguments are a plain dict built at the call (a snapshot), not a live view
+            return {"the-record-arguments-are-a-dict-built-at-the-call-not-a-live-view": False}
+        return {"the-record-arguments-are-a-dict-built-at-the-call-not-a-live-view": True,
+                "template-fields-are-keys-of-the-record": _X.names_within(_Z.Val.s(msg.t), list(mapping.keys()))}
 
     def emits(c, ctx, self, level, msg, mapping):
         rec = ctx.alloc(None, TRef())
-        for k, v in mapping.items():
+        for k, v in (mapping.items() if hasattr(mapping, "items") and callable(getattr(mapping, "items")) else []):
             ctx.store_raw(ctx.ref_id(rec), "rec:" + k, v.t if hasattr(v, "t") else ctx.to_val(v).t)
-        ctx.ghost["last_record_keys"] = list(mapping.keys())
+        ctx.ghost["last_record_keys"] = list(mapping.keys()) if callable(getattr(mapping, "keys", None)) else []
         ctx.emit("log", self, level, msg, rec)
 
 
+@contract("abstract:logging.Logger.isEnabledFor", kind="abstract", skip_body=True)
+class _is_enabled_for:
+    """Logger.isEnabledFor(level): some boolean the configuration of logging decides (assumed: effect-free)"""
+    params = {"self": None, "level": None}
+    result = TBool()
+
+
 PyLogger = TAbs("PyLogger", fields=dict(name=TStr()),
-                methods=dict(info=_quiet_log, debug=_quiet_log, warning=_quiet_log, error=_quiet_log, exception=_quiet_log, log=_log_call),
+                methods=dict(info=_quiet_log, debug=_quiet_log, warning=_quiet_log, error=_quiet_log, exception=_quiet_log, log=_log_call, isEnabledFor=_is_enabled_for),
                 events=False)
 
 
